@@ -80,6 +80,8 @@ inductive Ev where
   | write (a : Attr)             -- `x.<a> = <value computed from the current table>`
   | change (v t : Nat)           -- hashed content becomes `v`, topology content `t`
   | classify                     -- `classify_nodes(x)`
+  | retype (t0 : Nat)            -- the `type` of a few nodes is patched by hand (reroot), assuming the column
+                                 -- was computed from topology `t0`
   | lock
   | unlock
   | copy                         -- continue with `x.copy()`
@@ -155,6 +157,7 @@ def step (sp : Spec) (s : St) : Ev → St
   | .write a => put s a
   | .change v t => { s with ver := v, tver := t, hi := max s.hi (v + 1) }
   | .classify => classifyS s
+  | .retype t0 => if s.typeVer = t0 then classifyS s else s
   | .lock => { s with lock := s.lock + 1 }
   | .unlock => { s with lock := s.lock - 1 }
   | .copy => copyS sp s
